@@ -1,6 +1,8 @@
 import Rtcm.Lemmas.ReaderItems
 import Rtcm.Lemmas.Message
 import Rtcm.Lemmas.SockFile
+import Rtcm.Lemmas.ReaderItemsX
+import Rtcm.Lemmas.ChunkSock
 import Rtcm.Gen.Tables
 /-
   C02 — no valid frame is lost, duplicated or reordered on well-formed mixed input.
@@ -71,6 +73,38 @@ theorem C02_no_frame_lost_over_socket (dec : Bytes → Bytes) (o : Opts) (items 
     frames (run (sockOps dec) T2 o true s) = deliverable T2 o items := by
   rw [reader_sock_eq_file dec T2 o true s hs, hrem]
   exact (C02_no_frame_lost o items hv).1
+
+/-- **Same event sequence over every exact connection.**  On a well-formed mixed stream the whole
+    event sequence — frames, error-handler calls, raised errors, final stop — over an exact socket
+    connection (fault-free without transfer encoding, or fault-free chunked carrying a well-formed
+    body whose decoded bytes are the stream) is the one over a file: every theorem below about
+    `run fileOps … (fs (streamOf items))` transfers verbatim. -/
+theorem C02_events_over_exact_connection (dec : Bytes → Bytes) (R : Sock → Bytes → Prop) (E : Exact dec R)
+    (o : Opts) (items : List SItem) (hv : ∀ it ∈ items, it.Valid T2) (s : Sock) (h : R s (streamOf items)) :
+    run (sockOps dec) T2 o true s = run fileOps T2 o true (fs (streamOf items)) := by
+  rw [run_items_x (xstream_sock dec R E) T2 C02_reader_consts o items hv s h,
+    run_items T2 C02_reader_consts o items hv]
+
+/-- instance: any segmentation of the stream over a plain socket, any buffer size -/
+theorem C02_events_over_socket (dec : Bytes → Bytes) (o : Opts) (items : List SItem) (hv : ∀ it ∈ items, it.Valid T2)
+    (sched : List Recv) (bufsize : Nat) (hff : FaultFree sched) (hb : 0 < bufsize)
+    (hdata : pendingData sched = streamOf items) :
+    run (sockOps dec) T2 o true (Sock.init dec sched false bufsize) = run fileOps T2 o true (fs (streamOf items)) := by
+  apply C02_events_over_exact_connection dec _ (exact_unchunked dec) o items hv
+  refine ⟨(recv_faultfree dec ⟨[], [], sched, false, bufsize⟩ ⟨rfl, hb, hff⟩).1, ?_⟩
+  have := (recv_spec dec ⟨[], [], sched, false, bufsize⟩ rfl).remaining
+  rw [← hdata]
+  simpa [Sock.init, Sock.remaining] using this
+
+/-- instance: the stream arrives chunk-encoded (any chunking, any segmentation of the encoding) -/
+theorem C02_events_over_chunked_socket (dec : Bytes → Bytes) (o : Opts) (items : List SItem)
+    (hv : ∀ it ∈ items, it.Valid T2) (cs : List (Bytes × Bytes)) (hok : ∀ hc ∈ cs, ChunkOK hc)
+    (sched : List Recv) (bufsize : Nat) (hff : FaultFree sched) (hb : 0 < bufsize)
+    (hbody : pendingData sched = body cs) (hdec : decAll dec cs = streamOf items) :
+    run (sockOps dec) T2 o true (Sock.init dec sched true bufsize) = run fileOps T2 o true (fs (streamOf items)) := by
+  apply C02_events_over_exact_connection dec _ (exact_chunked dec cs hok) o items hv
+  rw [← hdec]
+  exact cstate_init hok sched bufsize hff hb hbody
 
 /-- a frame whose payload the constructor accepts is deliverable: in particular every payload of at
     least two bytes with an unknown message number (stub), up to the maximum 1023-byte payload -/
